@@ -9,7 +9,7 @@
    * completeness for patterns with OrValue: false for the algorithm as designed -- an OR alternative that
      matches locally is committed (documented in docs/tutorial/rewriter/node_value_checkers.md); the harness counts
      those cases separately;
-   * completeness for patterns with several output nodes (soundness below covers them);
+   * with several output nodes completeness is proved up to "no earlier candidate tuple makes the matcher raise";
    * that the variants of commute() mean the pattern with swapped operands is by construction of `variant`
      (Match/CommuteProofs.v); a separate declarative characterisation of `variant` is not given. *)
 From Coq Require Import List ZArith String Bool.
@@ -47,6 +47,39 @@ Theorem C06_match_complete_orfree_partial : forall fl p g root r s,
     (forall x b, assoc String.eqb x (m_b m) = Some b -> var_is s x b = true \/ (b = BNone /\ In x (gp_inputs p))).
 Proof. exact run_complete_orfree. Qed.
 Print Assumptions C06_match_complete_orfree_partial.
+
+(* the full statement (any pattern) is false for the algorithm: an OR alternative that matches locally is kept *)
+Definition C06_match_complete_full : Prop := forall fl p g root r s,
+  repaired fl = true -> topo p = true -> output_nodes p = [r] -> outs_reachable p r ->
+  instanceb g p [root] s = true -> exists m, run fl p g root false = Ok m.
+
+Theorem C06_or_committed_choice_refuted :
+  topo p_choice = true /\ output_nodes p_choice = [3] /\
+  instanceb g_choice p_choice [2] s_choice = true /\
+  run flags_fixed p_choice g_choice 2 false = Fail /\ run flags_as_pinned p_choice g_choice 2 false = Fail.
+Proof. exact or_committed_choice_witness. Qed.
+Print Assumptions C06_or_committed_choice_refuted.
+
+(* several output nodes: when some candidate tuple (first component = the root) carries an instance, a match is
+   reported -- for the first such tuple in candidate order -- provided no earlier tuple makes the matcher raise *)
+Theorem C06_match_complete_orfree_multi_partial : forall fl g p s,
+  repaired fl = true -> or_free p = true -> topo p = true ->
+  forall root cand,
+  outs_reachable_multi p ->
+  In cand (candidates p g root) ->
+  instanceb g p cand s = true ->
+  (forall c, In c (candidates p g root) -> try_candidate fl g p false c <> Err) ->
+  exists m, run fl p g root false = Ok m.
+Proof. exact run_complete_orfree_multi_closed. Qed.
+Print Assumptions C06_match_complete_orfree_multi_partial.
+
+Example C06_match_complete_multi_satisfiable :
+  or_free p_two_roots = true /\ topo p_two_roots = true /\ outs_reachable_multi p_two_roots /\
+  candidates p_two_roots g_two_roots 0 = [[0; 1]; [0; 2]] /\
+  instanceb g_two_roots p_two_roots [0; 2] s_two_roots = true /\
+  (forall c, In c (candidates p_two_roots g_two_roots 0) -> try_candidate flags_fixed g_two_roots p_two_roots false c <> Err) /\
+  exists m, run flags_fixed p_two_roots g_two_roots 0 false = Ok m /\ m_nodes m = [0; 2].
+Proof. exact multi_example. Qed.
 
 (* hence the instance at a root is unique on what the matcher binds *)
 Theorem C06_instance_unique_orfree : forall fl p g root r s1 s2,
